@@ -19,7 +19,10 @@ PROVEN / FINDING matrix (path x resource) on the code after the two fix: commits
   any path, nothing held  identity
   a termination inside the unlock window of the client's own REQUEST (handleRequest drops the lease lock right after the
   lease insert): KNOWN KF-dhcp4-establish-race: NAT, QoS, cache mac + circuit and the circuit-id index entry stay for ever,
-                          the Accounting-Stop precedes the Start (driven through the verif hook c2c1600, op `estgap`)
+                          the Accounting-Stop precedes the Start (driven through the verif hook c2c1600, op `estgap`);
+                          the clause covers that MAC at that operation only.  What the stale index entry does later (the next
+                          relayed REQUEST "renews" the dead lease): KNOWN KF-dhcp4-stale-index-revival (double-stop,
+                          addr-not-returned of a lease made from a stale entry)
   shutdown                KNOWN KF-dhcp4-shutdown-residue: nothing is torn down, no Accounting-Stop
 
   F = finding D46, fixed in /repo by ff76ae1 (DECLINE) and 35938e6 (expiry); (q) = quarantined, not free, after DECLINE;
@@ -49,7 +52,9 @@ ASSUME = [
     "{NAT, QoS, Accounting-Stop} were finding D46 (fixed); every path at the DISCOVER-only prefix x address: KNOWN "
     "KF-dhcp4-offer-pinned; shutdown x every resource: KNOWN KF-dhcp4-shutdown-residue; RELEASE/DECLINE inside the unlock "
     "window of the client's own REQUEST x {NAT, QoS, cache mac, cache circuit, circuit-id index, accounting order}: KNOWN "
-    "KF-dhcp4-establish-race (the theorems speak about histories in which a REQUEST is one step: residue_free_partial)",
+    "KF-dhcp4-establish-race (the theorems speak about histories in which a REQUEST is one step: residue_free_partial); a "
+    "lease made from the stale index entry such a race leaves x {second Stop, address}: KNOWN KF-dhcp4-stale-index-revival; "
+    "both clauses hold for the operation / the lease that shows the mechanism only, nothing is tainted for the rest of a sequence",
     "dhcpterm: clients with hardware addresses of 1, 5, 7 and 16 bytes are part of the generator (finding D60-expiry-odd-hlen, "
     "fixed by 2d9d12b; KF-radius-short-chaddr-panic, fixed by 2526db0); at most one address shorter than 6 bytes per run, "
     "because ebpf.MACToUint64 maps every such address to the cache key 0",
